@@ -133,6 +133,35 @@ def parseInfer (j : Json) : Except String (Option (List (String × Option Ty))) 
     return some l
   | _ => throw "bad infer"
 
+def pdimJ : PDim → Json
+  | .value n => Json.mkObj [("v", toJson n)]
+  | .param s => Json.mkObj [("p", Json.str s)]
+  | .unset => Json.mkObj []
+
+partial def ptyJ : PTy → Json
+  | .tensor e sh => Json.mkObj [("elem", toJson e),
+      ("shape", match sh with | none => Json.null | some ds => Json.arr (ds.map pdimJ).toArray)]
+  | .seq t => Json.mkObj [("seq", ptyJ t)]
+  | .opt t => Json.mkObj [("opt", ptyJ t)]
+
+def parsePDim (j : Json) : Except String PDim :=
+  match (j.getObjVal? "v").toOption, (j.getObjVal? "p").toOption with
+  | some v, _ => do return .value (← v.getInt?)
+  | none, some p => do return .param (← p.getStr?)
+  | none, none => pure .unset
+
+partial def parsePTy (j : Json) : Except String PTy := do
+  if let .ok e := j.getObjValAs? Nat "elem" then
+    match ← j.getObjVal? "shape" with
+    | .null => return .tensor e none
+    | .arr ds => return .tensor e (some (← ds.toList.mapM parsePDim))
+    | _ => throw "bad proto shape"
+  else if let .ok t := j.getObjVal? "seq" then
+    return .seq (← parsePTy t)
+  else if let .ok t := j.getObjVal? "opt" then
+    return .opt (← parsePTy t)
+  else throw "bad proto type"
+
 def handle (req : Json) : Json :=
   match (do
     let c ← parseCall req
@@ -169,7 +198,72 @@ def handle (req : Json) : Json :=
         | .ok outs => pure [("vp", Json.arr (outs.map (fun (o : OutVar) =>
             Json.arr #[Json.str o.key, otyJ o.ty, match o.val with | none => Json.null | some v => Json.str v])).toArray)]
       | _, _ => pure []
-    return Json.mkObj (base ++ extra ++ vpExtra)) with
+    -- the supplements' own rules on top of the observed standard answer
+    let tyList (j : Json) : Except String (List (Option Ty)) := do
+      (← j.getArr?).toList.mapM parseOptTy
+    let pairsJ (l : List (String × Option Ty)) : Json :=
+      Json.arr (l.map (fun (p : String × Option Ty) => Json.arr #[Json.str p.1, otyJ p.2])).toArray
+    let suppExtra ← match inferJ with
+      | .arr _ => do
+        let ans ← parseInfer inferJ
+        match construct (fun _ => ans) c with
+        | .ok std =>
+          let lp ← match (req.getObjVal? "loop").toOption with
+            | some lj => do
+              let rs ← tyList (← lj.getObjVal? "results")
+              let as ← tyList (← lj.getObjVal? "args")
+              pure [("loop_own", pairsJ (loopOwn rs as std))]
+            | none => pure []
+          let cp ← match (req.getObjVal? "compress").toOption with
+            | some cj => do
+              let axis : Option Int := match (cj.getObjVal? "axis").toOption with
+                | some aj => aj.getInt?.toOption
+                | none => none
+              let tys := c.inPairs.map (fun (p : String × Nat) => (c.info p.2).ty)
+              match tys with
+              | [some inp, some cond] =>
+                pure [("compress_own", match compressOwn inp cond axis with
+                  | .ok t => tyJ t
+                  | .error _ => Json.str "inference")]
+              | _ => pure []
+            | none => pure []
+          pure (lp ++ cp)
+        | .error _ => pure []
+      | _ => pure []
+    -- Type._to_onnx / Type._from_onnx
+    let protoExtra ← do
+      let a ← match (req.getObjVal? "to_proto").toOption with
+        | some (.arr ts) => do
+          let l ← ts.toList.mapM parseTy
+          pure [("to_proto", Json.arr (l.map (fun t => ptyJ (toProto t))).toArray)]
+        | _ => pure []
+      let b ← match (req.getObjVal? "from_proto").toOption with
+        | some (.arr ps) => do
+          let l ← ps.toList.mapM parsePTy
+          pure [("from_proto", Json.arr (l.map (fun t => tyJ (fromProto t))).toArray)]
+        | _ => pure []
+      pure (a ++ b)
+    -- the body's formal argument types of loop / scan / sequence_map (computed from the operands)
+    let tysOf (vs : List Nat) : Option (List Ty) := allSome (vs.map (fun v => (c.info v).ty))
+    let formalsJ (o : Option (List Ty)) : Json := match o with
+      | some l => Json.arr (l.map tyJ).toArray
+      | none => Json.str "raises"
+    let formalsExtra ← match (req.getObjVal? "formals").toOption with
+      | some fj => do
+        let kind ← fj.getObjValAs? String "kind"
+        match kind, c.args with
+        | "loop", [_, _, .list vs] => pure [("formals", formalsJ ((tysOf vs).map loopFormals))]
+        | "scan", [.list vs] => do
+          let n ← fj.getObjValAs? Int "num_scan"
+          pure [("formals", formalsJ ((tysOf vs).bind (fun ts => scanFormals ts n)))]
+        | "seqmap", [.var v, .list vs] =>
+          pure [("formals", formalsJ (match (c.info v).ty, tysOf vs with
+            | some t, some ts => seqMapFormals t ts
+            | _, _ => none))]
+        | "if", _ => pure [("formals", formalsJ (some []))]
+        | _, _ => pure []
+      | none => pure []
+    return Json.mkObj (base ++ extra ++ vpExtra ++ suppExtra ++ protoExtra ++ formalsExtra)) with
   | .ok j => j
   | .error e => Json.mkObj [("error", e)]
 
